@@ -21,11 +21,17 @@
 //!
 //! The compiled path must be indistinguishable from `evaluate_expr` through
 //! every consumer:
-//! - arithmetic and comparisons are null-strict, matching the interpreter's
-//!   arrow kernels (`boolean::and`, not Kleene). Because every operator in
-//!   the subset is null-strict, a result row is valid iff EVERY referenced
-//!   column is valid at that row — so validity is computed once as the AND
-//!   of leaf validities, exactly what kernel-by-kernel propagation yields.
+//! - arithmetic, comparisons and NOT are null-strict, so for programs
+//!   without AND/OR a result row is valid iff EVERY referenced column is
+//!   valid at that row — validity is computed once as the AND of leaf
+//!   validities, exactly what kernel-by-kernel propagation yields.
+//! - AND/OR (and BETWEEN, which lowers to AND) follow SQL three-valued
+//!   logic in the interpreter (`boolean::and_kleene` / `or_kleene`:
+//!   `NULL OR TRUE` is TRUE). The fused loop does not track per-register
+//!   validity, so a batch in which a referenced column actually HAS nulls
+//!   is evaluated by the interpreter when the program contains AND/OR;
+//!   null-free batches (the common case) stay on the fused path, where
+//!   both logics coincide.
 //! - f64 division by zero produces ±inf/NaN in both paths (never null).
 //! - numeric comparisons require identical arrow types on both sides;
 //!   anything the interpreter would coerce falls back to the interpreter.
@@ -164,6 +170,11 @@ pub struct CompiledPredicate {
     out: u8,
     f_regs: usize,
     m_regs: usize,
+    /// The source expression, for batches the fused loop must hand to the
+    /// interpreter (see `evaluate`).
+    expr: Expr,
+    /// Does the program contain AND/OR (three-valued under NULL operands)?
+    has_logic: bool,
 }
 
 /// Is compilation enabled? `QE_COMPILE=0` restores the interpreter.
@@ -441,6 +452,10 @@ impl CompiledPredicate {
         }
         let mut c = Compiler::new();
         let out = c.boolean(expr, schema)?;
+        let has_logic = c
+            .prog
+            .iter()
+            .any(|i| matches!(i, Instr::And { .. } | Instr::Or { .. }));
         Some(CompiledPredicate {
             cols: c.cols,
             col_types: c.col_types,
@@ -448,6 +463,8 @@ impl CompiledPredicate {
             out,
             f_regs: c.next_f as usize,
             m_regs: c.next_m as usize,
+            expr: expr.clone(),
+            has_logic,
         })
     }
 
@@ -475,6 +492,16 @@ impl CompiledPredicate {
         }
 
         let any_nulls = arrays.iter().any(|a| a.as_any_array().null_count() > 0);
+
+        // AND/OR are three-valued once an operand is NULL (`NULL OR TRUE` is
+        // TRUE, `NULL AND FALSE` is FALSE), which "valid iff every leaf is
+        // valid" cannot express. Such batches take the interpreter's Kleene
+        // kernels; an interpreter error surfaces through the caller's own
+        // fallback (`None`).
+        if any_nulls && self.has_logic {
+            let arr = crate::physical::operators::evaluate_expr(batch, &self.expr).ok()?;
+            return arr.as_any().downcast_ref::<BooleanArray>().cloned();
+        }
 
         let mut f_slabs = vec![[0f64; CHUNK]; self.f_regs.max(1)];
         let mut m_slabs = vec![[0u8; CHUNK]; self.m_regs.max(1)];
